@@ -29,6 +29,7 @@ import (
 type pool struct {
 	t     *testing.T
 	nodes map[string][]*Node
+	fresh []*Node // single-use reference instances (closed at the end of the bubble)
 }
 
 func (p *pool) get(n, f, digest int) []*Node {
@@ -119,6 +120,28 @@ func runCase(t *testing.T, p *pool, c *GCase) {
 	}
 	c.OutErr = firstErr != nil
 	c.OutJSON = string(first)
+	if firstErr == nil {
+		// reports: byte-identical on every evaluation, on instances that have handled other (higher and
+		// lower) sequence numbers before, and on a brand-new instance
+		ref := NewNode(p.t, NodeOpts{N: c.N, F: c.F, Oracle: 3, Digest: ocr2plustypes.ConfigDigest(digestOf(c.Digest))})
+		p.fresh = append(p.fresh, ref)
+		want, werr := ref.Plugin.Reports(context.Background(), c.Seq, first)
+		for rep := 0; rep < 2; rep++ {
+			for _, nd := range nodes {
+				got, gerr := nd.Plugin.Reports(context.Background(), c.Seq, append([]byte(nil), first...))
+				c.Evals++
+				if (gerr != nil) != (werr != nil) || len(got) != len(want) {
+					c.Det = false
+					continue
+				}
+				for i := range got {
+					if !bytes.Equal(got[i].ReportWithInfo.Report, want[i].ReportWithInfo.Report) {
+						c.Det = false
+					}
+				}
+			}
+		}
+	}
 }
 
 // ---------------------------------------------------------------- Coq term of a case
@@ -270,6 +293,9 @@ func runAll(t *testing.T, prop, base string, results [][2]string) {
 			for _, nd := range ns {
 				nd.Plugin.Close()
 			}
+		}
+		for _, nd := range p.fresh {
+			nd.Plugin.Close()
 		}
 		synctest.Wait()
 	})
